@@ -1096,7 +1096,7 @@ def db_enc_fixed():
 
 class C09(Check):
     pid = "C09"
-    props_modules = ["Verif.C09.Props", "Verif.C09.FsProps"]
+    props_modules = ["Verif.C09.Props", "Verif.C09.FsProps", "Verif.C09.HistProps"]
     quick_cases = 1000
     thorough_cases = 6000
     rule = ("hist: one relation of 1-5 typed columns, start in {absent, plain, gz, both with plain newer / gz "
@@ -1555,11 +1555,6 @@ class C09(Check):
     # ---- model
     def model_request(self, case):
         if case["kind"] == "hist":
-            if case.get("stream") == "big":
-                # relations of 100-200 KiB: the interpreted model needs a minute for one of them, and block sizes are
-                # below its abstraction (a file is a list of lines) anyway: decided by the direct oracle only
-                self.no_request["hist_big_relation"] = self.no_request.get("hist_big_relation", 0) + 1
-                return None
             return {"op": "hist", "fields": [{"name": f["name"], "dt": f["dt"]} for f in case["fields"]],
                     "start": case["start"], "ops": case["ops"], "sel": case.get("sel"), "enc": case.get("enc")}
         if case["kind"] == "schema_rt":
